@@ -230,3 +230,12 @@ def run(facts, rep, tier):
         rep.ok("C17-R4", "TreeIter::child|total-on-existing-nodes", "child() is Some(..) filtered only on self.node().is_some()")
     rep.rule("C17-R5", "Every squash(&K, d) whose tree is rendered with to_markdown(&P, ..) has P = K.parent() (the kept links must resolve from the squashed note's own directory).")
     rule_r5(facts, rep)
+    rep.rule("C17-R6", "= C15-R4: the jump to a referenced note (NodePointer::to_key) looks the reference's key up as it is; keys are resolved once, when the reference is read.")
+    from . import c15
+    c15.rule_r4(facts, rep, "C17-R6")
+    tk = facts.fn("GraphNodePointer as liwe::model::node::NodePointer>::to_key")
+    t = fb.show_canon(tk, tk.body).replace(" ", "")
+    if "self.graph.get_node_id(&P1)" in t:
+        rep.ok("C17-R6", tk.def_ + "|looks-up-the-key-as-given", "graph.get_node_id(&key)", tk.loc)
+    else:
+        rep.violation("C17-R6", tk.def_ + "|looks-up-the-key-as-given", "GraphNodePointer::to_key does not look up the key it was given (`%s`): references expand another note or none" % t[:80], tk.loc)
